@@ -11,6 +11,7 @@
                                   ids whose bits are those of the requested (initiator, direction) class
   * pairing_is_partial_bijection  client id <-> server id is one-to-one (both directions), equal directionality
   * pairing_is_stable             a registered pair never changes afterwards
+  * open_connection_pairs_the_stream   the partner is created (same class) when the child yields OpenConnection
   * signals_reach_only_pair       every SendQuicStreamData / ResetQuicStream / StopSendingQuicStream produced by a
                                   stream event (data, FIN, reset, hook completion) is addressed to the client stream or
                                   the server stream of the one layer registered under the event's id
@@ -266,6 +267,44 @@ theorem history_addresses_registered_streams (ins : List QIn) :
         · simp at hm ⊢; rw [hc]; exact hm
       · exact ih _ hstep.1 o ho tc id' ht
   exact gen ins _ (init_inv ops)
+
+/-! ### "relayed to exactly one": the partner comes into being when the child asks for the connection -/
+
+private theorem tsinv_self {c0 : Nat} {sid0 : Option Nat} {n0 : Next} {ts : TS σ} (h : TSInv c0 sid0 n0 ts) :
+    TSInv ts.s.cid ts.s.sid ts.next ts := by
+  refine ⟨?_, rfl, h.nok, fun _ _ => Nat.le_refl _, fun _ hx => hx, ?_, h.good⟩
+  · intro hn
+    rw [h.cid]
+    apply h.even
+    cases hs : sid0 with
+    | none => rfl
+    | some x => have := h.keep x hs; rw [hn] at this; cases this
+  · intro hn t ht; rw [hn] at ht; cases ht
+
+/-- **At least one.**  When the child layer of a stream that has no server stream yet yields `OpenConnection`, the
+    translation allocates a server stream id of the same class (initiator and direction bits) and — whatever the child
+    does with the reply, at any nesting depth — the layer has exactly that server stream id when the call returns. -/
+theorem open_connection_pairs_the_stream (fuel : Nat) {c0 : Nat} {sid0 : Option Nat} {n0 : Next} (ts : TS σ)
+    (h : TSInv c0 sid0 n0 ts) (hh : ts.halt = false) (hs : ts.s.sid = none) :
+    (procOne ops (translate ops fuel) ts .openServer).s.sid =
+        some (ts.next.get (allocIndex true (isUni ts.s.cid))) ∧
+    ts.next.get (allocIndex true (isUni ts.s.cid)) % 4 = ts.s.cid % 4 := by
+  -- the state right after the allocation (with the identity as continuation) satisfies the invariant ...
+  have hmid := procOne_inv ops (fun t _ => t) (fun _ _ h => h) h .openServer
+  have hcls := (hmid.fresh (by
+      cases hq : sid0 with
+      | none => rfl
+      | some x => have := h.keep x hq; rw [hs] at this; cases this)
+    (ts.next.get (allocIndex true (isUni ts.s.cid))) (by
+      unfold procOne; simp [hh, hs])).1
+  refine ⟨?_, by rw [hcls, h.cid]⟩
+  -- ... and, taken as a new base, its server id is kept by everything the continuation does
+  unfold procOne at hmid ⊢
+  simp only [hh, Bool.false_eq_true, if_false, hs] at hmid ⊢
+  have hbase := tsinv_self hmid
+  have := translate_inv ops fuel _ (ops.step ts.s.child ts.s.cConn
+    (serverConnFor (ts.next.get (allocIndex true (isUni ts.s.cid)))) (.connectDone false)).2 hbase
+  exact this.keep _ rfl
 
 /-! ### no data or reset after a FIN / reset, over the whole history -/
 
